@@ -18,13 +18,13 @@ Pair pair_of(const std::string& canon, u64 seed) { H128 h = murmur3_x64_128(cano
 uint32_t fold(const Pair& p, int lg_k) { return (static_cast<uint32_t>(p.h1 & ((1ULL << lg_k) - 1)) << 6) | static_cast<uint32_t>(p.col); }
 std::string canon_str(const Canon& c) { return std::string(reinterpret_cast<const char*>(c.data), c.len); }
 
-enum { C_BATCH = 1, C_UPD = 2, C_SERDE = 3, C_PROBE = 4, C_UNION_NEW = 5, C_UNION_ADD = 6, C_UNION_GET = 7, C_REDELIVER = 8, C_PAIR = 9, C_COPY = 10, C_NEW = 11 };
+enum { C_BATCH = 1, C_UPD = 2, C_SERDE = 3, C_PROBE = 4, C_UNION_NEW = 5, C_UNION_ADD = 6, C_UNION_GET = 7, C_REDELIVER = 8, C_PAIR = 9, C_COPY = 10, C_NEW = 11, C_CLUSTER = 12 };
 
 struct Slot { std::unique_ptr<S> sk; int lg_k = 0; std::set<std::string> items; };
 
 struct C05World: World {
   const char* name() const override { return "c05"; }
-  const char* step_name(int k) const override { static const char* n[] = { "?", "batch", "update", "serde", "reoffer_probe", "union_new", "union_add", "union_get_result", "union_redeliver", "equal_count_pair", "copy", "new_sketch" }; return (k >= 1 && k <= 11) ? n[k] : "step"; }
+  const char* step_name(int k) const override { static const char* n[] = { "?", "batch", "update", "serde", "reoffer_probe", "union_new", "union_add", "union_get_result", "union_redeliver", "equal_count_pair", "copy", "new_sketch", "clustered_rows" }; return (k >= 1 && k <= 12) ? n[k] : "step"; }
   std::string family_of(const Plan&) const override { return "cpc"; }
   Plan generate(u64 run_seed, int tier) override {
     Plan p; p.run_seed = run_seed; Rng rc(run_seed, "cfg"), rp(run_seed, "plan"), rf(run_seed, "fault");
@@ -45,7 +45,8 @@ struct C05World: World {
       else if (roll < 90) s.kind = C_UNION_GET;
       else if (roll < 93) { s.kind = faults ? C_REDELIVER : C_UNION_GET; s.b = static_cast<i64>(rf.below(8)); }
       else if (roll < 96) { s.kind = C_PAIR; s.b = rp.range(4, 9); s.c = static_cast<i64>(rp.below(40)); }
-      else if (roll < 98) { s.kind = C_COPY; s.b = static_cast<i64>(rp.below(static_cast<u64>(nslots))); }
+      else if (roll < 97) { s.kind = C_COPY; s.b = static_cast<i64>(rp.below(static_cast<u64>(nslots))); }
+      else if (roll < 99) { s.kind = C_CLUSTER; s.b = static_cast<i64>(rp.below(100000)); s.c = static_cast<i64>(rp.below(64)); }
       else { s.kind = C_NEW; s.b = rp.range(4, hi); }
       p.steps.push_back(s);
     }
@@ -114,6 +115,15 @@ struct C05World: World {
           check_sketch(ctx, *sl.sk, sl.lg_k, sl.items, seed, true, "restored sketch");
           ctx.fault("checkpoint_restore"); break;
         }
+        case C_CLUSTER: {   // adversarial stream: every input falls into a narrow band of rows (found by searching the independent hash), so that the sorted
+          // pairs of the image have one long run of empty rows before and after the band; then a checkpoint/restore
+          const u64 k = 1ULL << sl.lg_k; const u64 band = std::max<u64>(1, k / 64), r0 = (static_cast<u64>(s.b) * 7919) % (k - band + 1); static const i64 cnts[] = { 18, 24, 40, 80 }; const i64 cnt = cnts[static_cast<size_t>(s.c) % 4];
+          i64 fed = 0; for (i64 x = s.b * 1000003; fed < cnt && x < s.b * 1000003 + 400000; x++) { const Pair pr = pair_of(canon_str(canon_i64(x)), seed); const u64 row = pr.h1 & (k - 1); if (row >= r0 && row < r0 + band) { sl.sk->update(static_cast<int64_t>(x)); sl.items.insert(canon_str(canon_i64(x))); fed++; } }
+          check_sketch(ctx, *sl.sk, sl.lg_k, sl.items, seed, false, "sketch after clustered batch");
+          auto bytes = sl.sk->serialize(); S back = S::deserialize(bytes.data(), bytes.size(), seed, A(1)); auto again = back.serialize();
+          ctx.require(again.size() == bytes.size() && std::equal(again.begin(), again.end(), bytes.begin()), "C05|reserialized-image-differs", "clustered rows");
+          check_sketch(ctx, back, sl.lg_k, sl.items, seed, true, "restored sketch after clustered batch");
+          ctx.probe("clustered_rows"); ctx.nontrivial = true; break; }
         case C_PROBE: check_sketch(ctx, *sl.sk, sl.lg_k, sl.items, seed, true, "sketch"); ctx.nontrivial = true; break;
         case C_COPY: { Slot& d = slots[static_cast<size_t>(s.b) % slots.size()]; if (&d != &sl) { d.sk.reset(new S(*sl.sk)); d.lg_k = sl.lg_k; d.items = sl.items; } else { *sl.sk = *sl.sk; } check_sketch(ctx, *d.sk, d.lg_k, d.items, seed, false, "copy"); break; }
         case C_UNION_NEW: { lg_u = static_cast<int>(std::min<i64>(std::max<i64>(s.b, 4), 16)); un.reset(new UN(static_cast<uint8_t>(lg_u), seed, A(1))); u_items.clear(); u_expect = lg_u; delivered.clear(); check_union(false, "construction"); break; }
